@@ -1,6 +1,7 @@
 """C22 — Offsets and LSP positions convert consistently and stay in bounds (engine K)."""
 import shapes as S
 from kflow import HDef, run_k
+import docflow
 
 FUNCS = ["emmylua_parser::LineIndex::parse", "LineIndex::get_offset", "LineIndex::get_line_col",
          "LineIndex::get_line", "LineIndex::get_line_offset"]
@@ -54,3 +55,4 @@ def run(out):
     ]
     run_k(out, "c22", "parser", hs, jobs=14, harness_timeout=900,
           overall_timeout=1500 if tier == "quick" else 6 * 3600, mem_gb=12)
+    docflow.run_doc(out, ["doc_client_range"])
